@@ -266,3 +266,22 @@ def _akai_sani(c):
     c.ensures("implies(strlen(t()) > 0 and char_at(t(), strlen(t()) - 1) == ':', result == substr(t(), 0, strlen(t()) - 1))", "one-trailing-colon-is-dropped")
     c.ensures("implies(strlen(t()) == 0 or char_at(t(), strlen(t()) - 1) != ':', result == t())", "anything-else-is-kept")
     c.modifies()
+
+
+# ================================================================================================== C06 / C10: the Roland image hands the routine table to EVERY volume
+# RolandS7xxImage.set_routines: the table just installed on the image is also installed on every entry of `volumes` - the declared
+# volumes AND whatever the parser appended behind them (the pseudo-volume collecting performances no volume refers to) - so no level of
+# the tree is left without its naming routines.  Proved for two declared volumes plus one appended.
+_RV = ("obj", "smpl_extract.structural:Traversable", {"_routines": ("cdict", {}), "_children": ("const", None), "_f_realize_children": ("drop",)})
+
+
+@contract("smpl_extract.roland.s7xx.image:RolandS7xxImage.set_routines", props=["C06", "C10", "C05"])
+def _rsr(c):
+    c.self_obj(("self", "smpl_extract.roland.s7xx.image:RolandS7xxImage", {"_routines": ("cdict", {}), "_children": ("const", None), "_f_realize_children": ("drop",),
+                                                                         "num_volumes": ("const", 2), "volumes": ("clist", [_RV, _RV, _RV])}))          # two declared volumes + one appended
+    c.param("routines", ("cdict", {"make_safe_names": ("obj", "RoutineToken", {}), "make_export_names": ("obj", "RoutineToken", {})}))
+    c.use = {S + "Traversable.set_routines": "inline"}
+    c.ensures("self._routines is routines", "installed-on-the-image")
+    for k in range(3):
+        c.ensures(f"self.volumes[{k}]._routines is routines", f"and-on-volume-{k}-declared-or-appended")
+    c.modifies("self._routines", *[f"self.volumes[{k}]._routines" for k in range(3)])
